@@ -332,13 +332,15 @@ func runC07(res *hx.Result, rng *hx.Rng, tier string, outdir string) {
 		o := outs[i]
 		inLen := uint64(len(j.input))
 		bound := 64*inLen + 48<<20 // a modest multiple of the input + the documented limits (10 MiB strings/payload, 4096-element containers)
-		zeroWidthSpin := j.entry == k8SigRead && j.t != nil && j.t.Has(func(x *wg.Ty) bool { return x.K == wg.KList && x.Elem.MinWidth() == 0 }) && j.hostCount >= 1<<20
+		zeroWidthType := j.entry == k8SigRead && j.t != nil && j.t.Has(func(x *wg.Ty) bool { return x.K == wg.KList && x.Elem.MinWidth() == 0 })
+		zeroWidthSpin := zeroWidthType && j.hostCount >= 1<<20
 		genEntry := j.entry == k8MetaObject || j.entry == k8ObjectRef || j.entry == k8ServiceInfo
 		deepText := (j.entry == k7Parse || j.entry == k8Value || j.entry == k8CapMap || j.entry == k8SigRead) && maxNest(j.input) >= 14
 		fail := func(kind, what string) {
 			detail := fmt.Sprintf("%s on %d bytes %x (%s; signature %s): %s", k7Names[j.entry], len(j.input), trunc(j.input, 80), j.desc, j.sig, what)
 			switch {
-			case zeroWidthSpin && (kind == "hang" || kind == "slow" || kind == "alloc"):
+			case zeroWidthType && (kind == "hang" || kind == "slow" || kind == "alloc"):
+				// whatever number the bytes hold where the list's count is read
 				sw["sig_spin_zero_width"], swDetail["sig_spin_zero_width"] = true, detail
 				res.FailKnown(kind, detail, "sig_spin_zero_width")
 			case genEntry && (kind == "crash" || kind == "alloc" || kind == "hang" || kind == "slow"):
